@@ -704,12 +704,17 @@ impl TypeChecker {
         ctx: TypeCtx,
     ) -> TypeResult<(Option<TyID>, Option<TyID>)> {
         let mut ret = None;
-        for stmt in statements.iter() {
+        // The last statement gives the block its value when it is an expression. It is checked
+        // once: checking it a second time for the value doubled the work at every nesting level.
+        let (init, last_value) = match statements.split_last() {
+            Some((Statement::StatementExpression { value, .. }, init)) => (init, Some(value)),
+            _ => (&statements[..], None),
+        };
+        for stmt in init.iter() {
             let stmt_ret = self.statement(stmt, ctx)?;
             ret = self.unify_option(span, ctx, ret, stmt_ret)?;
         }
-        // We typecheck the last statement twice sometimes, doesn't matter though.
-        let value = if let Some(Statement::StatementExpression { value, .. }) = statements.last() {
+        let value = if let Some(value) = last_value {
             let (value_ret, value) = self.expression(value, ctx)?;
             ret = self.unify_option(span, ctx, ret, value_ret)?;
             Some(value)
